@@ -1132,7 +1132,7 @@ impl C10 {
         cx.stats.evaluations += 1;
         let (d1, d2) = (counts[1].saturating_sub(counts[0]), counts[2].saturating_sub(counts[1]));
         // growth below 10 % of I(N) is measurement noise of a (sub-)linear reader, not super-linear work
-        if d2 > 3 * d1 && d2 > counts[0] / 10 {
+        if (d2 > 3 * d1 && d2 > counts[0] / 10) || counts[2] > 6 * counts[0] {
             cx.outcome("linear-time:superlinear");
             cx.fail(
                 &key,
@@ -1226,7 +1226,7 @@ impl Driver for C10 {
         let nb = generated_bases().len();
         Describe {
             rule: format!(
-                "base streams: {nb} reference-encoder streams (empty library, empty structure, each element kind minimal and with all optional records, strans variants, property list, mixed strings, two multi-element structures, long coordinate lists, a 24-structure library) + the {} tracked repository .gds files. [T] every byte prefix of bases with <= 64 records (incl. length 0 and the full stream), record boundary +-0..3 bytes of the larger ones. [F] at {} record position(s) each of {} single-record faults: length field := 0,1,2,3,odd,len-2,len+2,0xFFFE,0xFFFF; payload emptied; record type := each of 0x00..0x3b and 0x3c,0x3d,0x40,0x7f,0x80,0xfe,0xff; data type := 0..7,255; record deleted / duplicated / swapped with successor; a whole element of each of the 7 kinds spliced in; record replaced by / preceded by each record of the minimal typed alphabet; the payload of each string record := each of 12 byte strings that are mostly not valid UTF-8 (cut-short sequences with / without NUL padding, stray continuation bytes, overlong and surrogate encodings, Latin-1, 30 000 x 0xFF); word 0 / 6 / 11 of each integer record := {{0, +-1, 1899, 1900, 2100, 3799, 3801, 0x1000, i16 limits, i32 max}}; each 8-byte real := {{0, 1 (smallest unnormalised), 0x80..0, 0x7f..f, 0xff..f, smallest normalised, largest unnormalised at exponent 0, a negative unnormalised, three values of the top exponent band, the second-lowest hexade, two unnormalised values at a middle exponent, a 56-bit mantissa, 1 + 2^-52}}. {} [S] after each of {} parser contexts (library header x5, structure x4, each element kind after its start record and after XY, after STRANS/MAG, after PROPATTR/PROPVALUE/ENDEL, after ENDLIB) every sequence of 1..2 records over the full typed alphabet ({} records: each defined record type with minimal valid payload, zero-length variant, wrong-size variant, the ten unreleased types, XY with 3/5 points){}, each once followed by end-of-input and once by the context's natural completion. [L] linear-time evidence: for the families many-tiny-structs, many-elements, maximal-xy-records (32 KiB each), many-properties, maximal-strings (32 KiB each), error-at-the-very-end at {} KiB the stand-alone reader (`l21mc gdsread`) runs under `valgrind --tool=cachegrind --cache-sim=no`; the deterministic instruction counts must satisfy I(4N)-I(2N) <= 3 x (I(2N)-I(N)) (linear => 2, quadratic => 4; differences below 10 % of I(N) count as noise); the counts are echoed under alphabet_use as instructions:<family>:<size>. [HL] all 65 536 values of the length field at 3 record positions; [HT] all 256 x 256 (record type, data type) pairs at 2 record positions. A state is one byte stream (hashed); non-trivial = differs from its unfaulted base.",
+                "base streams: {nb} reference-encoder streams (empty library, empty structure, each element kind minimal and with all optional records, strans variants, property list, mixed strings, two multi-element structures, long coordinate lists, a 24-structure library) + the {} tracked repository .gds files. [T] every byte prefix of bases with <= 64 records (incl. length 0 and the full stream), record boundary +-0..3 bytes of the larger ones. [F] at {} record position(s) each of {} single-record faults: length field := 0,1,2,3,odd,len-2,len+2,0xFFFE,0xFFFF; payload emptied; record type := each of 0x00..0x3b and 0x3c,0x3d,0x40,0x7f,0x80,0xfe,0xff; data type := 0..7,255; record deleted / duplicated / swapped with successor; a whole element of each of the 7 kinds spliced in; record replaced by / preceded by each record of the minimal typed alphabet; the payload of each string record := each of 12 byte strings that are mostly not valid UTF-8 (cut-short sequences with / without NUL padding, stray continuation bytes, overlong and surrogate encodings, Latin-1, 30 000 x 0xFF); word 0 / 6 / 11 of each integer record := {{0, +-1, 1899, 1900, 2100, 3799, 3801, 0x1000, i16 limits, i32 max}}; each 8-byte real := {{0, 1 (smallest unnormalised), 0x80..0, 0x7f..f, 0xff..f, smallest normalised, largest unnormalised at exponent 0, a negative unnormalised, three values of the top exponent band, the second-lowest hexade, two unnormalised values at a middle exponent, a 56-bit mantissa, 1 + 2^-52}}. {} [S] after each of {} parser contexts (library header x5, structure x4, each element kind after its start record and after XY, after STRANS/MAG, after PROPATTR/PROPVALUE/ENDEL, after ENDLIB) every sequence of 1..2 records over the full typed alphabet ({} records: each defined record type with minimal valid payload, zero-length variant, wrong-size variant, the ten unreleased types, XY with 3/5 points){}, each once followed by end-of-input and once by the context's natural completion. [L] linear-time evidence: for the families many-tiny-structs, many-elements, maximal-xy-records (32 KiB each), many-properties, maximal-strings (32 KiB each), error-at-the-very-end at {} KiB the stand-alone reader (`l21mc gdsread`) runs under `valgrind --tool=cachegrind --cache-sim=no`; the deterministic instruction counts must satisfy I(4N)-I(2N) <= 3 x (I(2N)-I(N)) and I(4N) <= 6 x I(N) (linear => 2, quadratic => 4; differences below 10 % of I(N) count as noise); the counts are echoed under alphabet_use as instructions:<family>:<size>. [HL] all 65 536 values of the length field at 3 record positions; [HT] all 256 x 256 (record type, data type) pairs at 2 record positions. A state is one byte stream (hashed); non-trivial = differs from its unfaulted base.",
                 REPO_FILES.len(),
                 t.pick("every (bases <= 64 records) / first 24, last 12 and every 37th (larger bases)", "every"),
                 fault_table().len(),
